@@ -111,6 +111,9 @@ def unkey(k):
     """the value a stored map / set key stands for (composite keys are encoded by Interp.key_of)"""
     if isinstance(k, str) and k.startswith('TS\x1f'):
         return ('ts', k[3:])
+    if isinstance(k, str) and k.startswith('EN\x1f'):
+        _t, nm, vi = k.split('\x1f')
+        return ('adt', nm, int(vi), [])
     if isinstance(k, str) and k.startswith('T\x1f'):
         out = []
         for e in k.split('\x1f')[1:]:
@@ -725,6 +728,8 @@ class Interp:
 
     def key_of(self, v):
         v = self.deref_all(v)
+        if v is not None and v[0] == 'adt' and not v[3] and v[1] not in ('core::option::Option',):
+            return 'EN\x1f%s\x1f%d' % (v[1], v[2])          # a field-less enum value (a consistency level, a kind) as a key
         if v is not None and v[0] == 'tuple':
             # a composite key (id, address): encoded so that keys stay hashable and ordered; unkey() rebuilds the tuple
             enc = []
